@@ -82,9 +82,10 @@ func libStored(b []byte) [2]byte { v := packet.Checksum(b); return [2]byte{byte(
 // ---------------------------------------------------------------------------------------------
 
 type vector struct {
-	K string `json:"k"`
-	B []int  `json:"b"`
-	E []int  `json:"e"`
+	K   string `json:"k"`
+	B   []int  `json:"b"`
+	E   []int  `json:"e"`
+	Pre string `json:"pre"`
 }
 
 type failure struct {
@@ -105,6 +106,8 @@ type summary struct {
 	Random         int            `json:"random_strings"`
 	RandomLens     int            `json:"random_lengths"`
 	Splits         int            `json:"split_checks"`
+	ConcHeaders    int            `json:"concurrent_headers"`
+	ConcFrames     int            `json:"concurrent_frames"`
 	HdrSweep       int            `json:"hdr_field_sweep"`
 	EchoSweep      int            `json:"echo_payload_sweep"`
 	Frames         int            `json:"frames_verified"`
@@ -142,6 +145,13 @@ func fail(key, what string, c map[string]interface{}) {
 	perKey[key]++
 	if perKey[key] > 5 {
 		return
+	}
+	if c != nil && c["op"] == "send" {
+		h := historyCopy()
+		if len(h) > 0 {
+			h = h[:len(h)-1] // the failing call itself is the case
+		}
+		c["history"] = h
 	}
 	sum.Failures = append(sum.Failures, failure{Key: key, What: what, Case: c})
 }
@@ -297,8 +307,27 @@ func newSess() (*sess, error) {
 
 func (x *sess) close() { go x.s.Close() }
 
+// history is every send call made in this process, in order: the transmit buffers are pooled, so what a send function
+// emits may (wrongly) depend on earlier transmissions; a failing case is replayed together with its history.
+var history []map[string]interface{}
+
+const historyCap = 600
+
+func sendRec(fn string, src, dst, target packet.Addr, id, seq uint16) map[string]interface{} {
+	return map[string]interface{}{"fn": fn, "src": addrJSON(src), "dst": addrJSON(dst), "target": addrJSON(target), "id": id, "seq": seq}
+}
+
+func historyCopy() []map[string]interface{} {
+	h := history
+	if len(h) > historyCap {
+		h = h[len(h)-historyCap:]
+	}
+	return append([]map[string]interface{}{}, h...)
+}
+
 // send runs one send function under recover and returns the frames it emitted.
 func (x *sess) send(fn string, src, dst, target packet.Addr, id, seq uint16) (frames [][]byte, err error, panicked interface{}) {
+	history = append(history, sendRec(fn, src, dst, target, id, seq))
 	x.conn.Take()
 	func() {
 		defer func() { panicked = recover() }()
@@ -515,6 +544,19 @@ func stage12(path string, x *sess) error {
 					}
 				}
 			}
+		case "pair6":
+			if x != nil {
+				src := packet.Addr{MAC: vh.OwnMAC, IP: netip.AddrFrom16(*(*[16]byte)(b[0:16]))}
+				dst := packet.Addr{MAC: vh.RouterMAC, IP: netip.AddrFrom16(*(*[16]byte)(b[16:32]))}
+				msg := b[40:]
+				id, seq := binary.BigEndian.Uint16(msg[4:6]), binary.BigEndian.Uint16(msg[6:8])
+				sum.LibChecks++
+				sum.LibByOp["pair:"+v.Pre]++
+				if ok, what := pairCase(x, v.Pre, src, dst, id, seq, msg, &e); !ok {
+					fail("C15:send:ICMP6SendEchoRequest", "after "+v.Pre+": "+what, map[string]interface{}{"op": "pair", "pre": v.Pre,
+						"src": addrJSON(src), "dst": addrJSON(dst), "id": id, "seq": seq, "msg": hx(msg), "e": hx(e[:])})
+				}
+			}
 		case "echo6":
 			if x != nil {
 				src := packet.Addr{MAC: vh.OwnMAC, IP: netip.AddrFrom16(*(*[16]byte)(b[0:16]))}
@@ -691,6 +733,105 @@ func stage3b(rng *rand.Rand, thorough bool) {
 	}
 }
 
+// pairCase: one transmission `pre` that fills the pooled transmit buffer with non-zero bytes (target address and MAC
+// without zero bytes, long echo id), then the echo request whose checksum bytes TLC computed.
+func pairCase(x *sess, pre string, src, dst packet.Addr, id, seq uint16, expMsg []byte, exp *[2]byte) (bool, string) {
+	dirty := packet.Addr{MAC: net.HardwareAddr{0x9a, 0x99, 0x98, 0x97, 0x96, 0x95}, IP: netip.MustParseAddr("fe80::9191:9292:9393:9499")}
+	psrc, pdst := src, dst
+	if pre == "ICMP4SendEchoRequest" {
+		psrc = packet.Addr{MAC: vh.OwnMAC, IP: netip.MustParseAddr("153.153.153.153")}
+		pdst = packet.Addr{MAC: dirty.MAC, IP: netip.MustParseAddr("145.146.147.148")}
+	}
+	if ok, what := sendCase(x, pre, psrc, pdst, dirty, 0x9995, 0x9793, nil, nil); !ok {
+		return false, "preceding " + pre + ": " + what
+	}
+	return sendCase(x, "ICMP6SendEchoRequest", src, dst, packet.Addr{}, id, seq, expMsg, exp)
+}
+
+// stageConc: headers completed concurrently on separate buffers (legitimate use: several senders) and echo requests
+// sent concurrently through one session. Every result is judged on its own by the validated transcription.
+func stageConc(x *sess, seed int64, thorough bool) (bad int, first string, badFrames int, firstFrame string) {
+	workers, iters := 8, 20000
+	if thorough {
+		iters = 200000
+	}
+	type res struct {
+		bad   int
+		first string
+	}
+	out := make(chan res, workers)
+	for w := 0; w < workers; w++ {
+		go func(w int) {
+			r := res{}
+			rng := rand.New(rand.NewSource(seed*131 + int64(w)))
+			buf := make([]byte, 0, 1600)
+			payload := make([]byte, 1480)
+			for i := 0; i < iters; i++ {
+				var a, b [4]byte
+				rng.Read(a[:])
+				rng.Read(b[:])
+				ttl, proto, pl := byte(rng.Intn(256)), byte(rng.Intn(256)), rng.Intn(1481)
+				ip := packet.EncodeIP4(buf[:20], ttl, netip.AddrFrom4(a), netip.AddrFrom4(b))
+				var h packet.IP4
+				if i%2 == 0 {
+					h = ip.SetPayload(payload[:pl], proto)
+				} else {
+					h, _ = ip.AppendPayload(payload[:pl], proto)
+				}
+				if len(h) < 20 || refCksum(h[:20]) != 0 {
+					r.bad++
+					if r.first == "" {
+						r.first = fmt.Sprintf("worker %d iteration %d: header %s does not sum to zero", w, i, hx(h[:20]))
+					}
+				}
+			}
+			out <- r
+		}(w)
+	}
+	for w := 0; w < workers; w++ {
+		r := <-out
+		bad += r.bad
+		if first == "" {
+			first = r.first
+		}
+	}
+	sum.ConcHeaders += workers * iters
+	// concurrent echo requests through one session
+	if x != nil {
+		x.conn.Take()
+		n := 200
+		done := make(chan struct{}, workers)
+		for w := 0; w < workers; w++ {
+			go func(w int) {
+				defer func() { recover(); done <- struct{}{} }()
+				for i := 0; i < n; i++ {
+					id, seq := uint16(w*1000+i), uint16(i*7+w)
+					if w%2 == 0 {
+						x.s.ICMP4SendEchoRequest(packet.Addr{MAC: vh.OwnMAC, IP: netip.AddrFrom4([4]byte{10, byte(w), byte(i), 1})},
+							packet.Addr{MAC: vh.RouterMAC, IP: netip.AddrFrom4([4]byte{10, 0, byte(i), byte(w)})}, id, seq)
+					} else {
+						x.s.ICMP6SendEchoRequest(packet.Addr{MAC: vh.OwnMAC, IP: vh.HostLLA},
+							packet.Addr{MAC: vh.RouterMAC, IP: netip.AddrFrom16([16]byte{0xfe, 0x80, 0, 0, 0, 0, 0, 0, 0, 0, 0, 0, byte(w), byte(i), 0x91, 0x99})}, id, seq)
+					}
+				}
+			}(w)
+		}
+		for w := 0; w < workers; w++ {
+			<-done
+		}
+		for _, f := range x.conn.Take() {
+			sum.ConcFrames++
+			if problem, _, _, _, _, _ := checkFrame(f); problem != "" {
+				badFrames++
+				if firstFrame == "" {
+					firstFrame = "concurrent echo request: " + problem
+				}
+			}
+		}
+	}
+	return bad, first, badFrames, firstFrame
+}
+
 func stage4(x *sess, rng *rand.Rand, thorough bool) {
 	v6 := []netip.Addr{vh.HostLLA, netip.MustParseAddr("ff02::1"), netip.MustParseAddr("ff02::2"), netip.MustParseAddr("fe80::ffff:ffff:ffff:ffff"),
 		netip.MustParseAddr("2001:db8::ffff:ffff"), netip.MustParseAddr("2001:db8:1:2:3:4:5:6"), netip.MustParseAddr("::1"),
@@ -791,6 +932,38 @@ func runCase(js string) int {
 		}
 		res["reproduced"] = refCksum(h) != 0
 		res["what"] = "header " + hx(h)
+	case "concurrent":
+		x, err := newSess()
+		if err != nil {
+			fmt.Fprintln(os.Stderr, err)
+			return 2
+		}
+		defer x.close()
+		th, _ := c["thorough"].(bool)
+		for attempt := 0; attempt < 5; attempt++ { // a race: give it a few chances
+			bad, first, badFrames, firstFrame := stageConc(x, int64(num("seed"))+int64(attempt), th)
+			if str("what") == "frames" && badFrames > 0 {
+				res["reproduced"] = true
+				res["what"] = firstFrame
+				break
+			}
+			if str("what") != "frames" && bad > 0 {
+				res["reproduced"] = true
+				res["what"] = first
+				break
+			}
+		}
+	case "pair":
+		x, err := newSess()
+		if err != nil {
+			fmt.Fprintln(os.Stderr, err)
+			return 2
+		}
+		defer x.close()
+		e := unhex("e")
+		ok, what := pairCase(x, str("pre"), addrFromJSON(c["src"]), addrFromJSON(c["dst"]), uint16(num("id")), uint16(num("seq")), unhex("msg"), &[2]byte{e[0], e[1]})
+		res["reproduced"] = !ok
+		res["what"] = what
 	case "send":
 		x, err := newSess()
 		if err != nil {
@@ -798,6 +971,15 @@ func runCase(js string) int {
 			return 2
 		}
 		defer x.close()
+		if hs, ok := c["history"].([]interface{}); ok { // re-create the state of the pooled transmit buffers
+			for _, h := range hs {
+				m, _ := h.(map[string]interface{})
+				fn, _ := m["fn"].(string)
+				id, _ := m["id"].(float64)
+				sq, _ := m["seq"].(float64)
+				x.send(fn, addrFromJSON(m["src"]), addrFromJSON(m["dst"]), addrFromJSON(m["target"]), uint16(id), uint16(sq))
+			}
+		}
 		var exp *[2]byte
 		var msg []byte
 		if e := unhex("e"); len(e) == 2 {
@@ -845,6 +1027,15 @@ func main() {
 	}
 	if len(sum.OracleMismatch) == 0 {
 		stage4(x, rng, thorough)
+		bad, first, badFrames, firstFrame := stageConc(x, seed, thorough)
+		if bad > 0 {
+			fail("C15:IP4.CalculateChecksum:concurrent", fmt.Sprintf("%d headers wrong under concurrent use of separate buffers; %s", bad, first),
+				map[string]interface{}{"op": "concurrent", "what": "headers", "seed": seed, "thorough": thorough})
+		}
+		if badFrames > 0 {
+			fail("C15:send:concurrent", fmt.Sprintf("%d frames wrong when echo requests are sent concurrently; %s", badFrames, firstFrame),
+				map[string]interface{}{"op": "concurrent", "what": "frames", "seed": seed, "thorough": thorough})
+		}
 		x.close()
 		stage3(rng, thorough)
 		stage3b(rng, thorough)
